@@ -562,7 +562,8 @@ def rule_retire(ctx: Ctx) -> None:
                 ctx.add("4-retire", fn, destroyed[0], retired,
                         f"`{var}` selected from `{coll}` is destroyed and {'also removed from' if retired else 'NOT removed from'} `{coll}` in the loop"
                         + ("" if retired else " - the next iteration selects the destroyed element again"), key=f"retire {var} from {coll}")
-    ctx.floor("4-retire", n, 1)
+    if n == 0:
+        ctx.note("4-retire: no select-and-destroy loop found (rule 7 checks that DiskCache still evicts len(files) - max_size files)")
 
 
 # ------------------------------------------------------------------------------ rule 5
@@ -621,7 +622,28 @@ def rule_disk_bound(ctx: Ctx) -> None:
     ctx.add("7-disk-bound", ev_fn, rng[0] if rng else ev_fn.node, ok, "evicts len(files) - max_size files" if ok else "the number of evicted files is no longer len(files) - max_size", key="disk-evict-count")
 
 
+def rule_stores(ctx: Ctx) -> None:
+    """put() stores the value it was given on every normal path (a re-put must overwrite)."""
+    for cname, stmt_ok in (("LRUCache", "self._cache_dict[key] = value"), ("HybridCache", "self._cache_dict[key] = value"), ("SimpleCache", "self._cache_dict[key] = value")):
+        fn = ctx.prog.cls(f"{MOD}.{cname}").methods["put"]
+        cfg = ctx.cfg(fn)
+        stores = set(cfg.nodes(lambda s: isinstance(s, ast.Assign) and norm(s) == stmt_ok))
+        ok = bool(stores) and cfg.must_pass(ENTRY, EXIT, stores, normal_only=True)
+        wp = None if ok else cfg.witness_path(ENTRY, EXIT, stores)
+        ctx.add("8-stores", fn, fn.node, ok, "every normal path of put() stores the given value under the key" if ok else
+                f"a path through {cname}.put returns without storing the value: `key in cache` holds but get() returns an older value", key=f"{cname}.put stores", path=cfg.describe(wp, fn.module.relpath) if wp else None)
+    dp = ctx.prog.func(f"{MOD}.DiskCache.put")
+    cfg = ctx.cfg(dp)
+    w = set(cfg.nodes(lambda s: isinstance(s, ast.Expr) and isinstance(s.value, ast.Call) and dotted(s.value.func) in ("cloudpickle.dump", "pickle.dump") and norm(s.value.args[0]) == "value"))
+    ok = bool(w) and cfg.must_pass(ENTRY, EXIT, w, normal_only=True)
+    ctx.add("8-stores", dp, dp.node, ok, "DiskCache.put writes the value to its file on every path" if ok else "DiskCache.put can return without writing the value", key="DiskCache.put stores")
+    lp = [c for c in ast.walk(dp.node) if isinstance(c, ast.Call) and norm(c.func) == "self.lru_cache.put"]
+    ok = bool(lp) and [norm(a) for a in lp[0].args] == ["key", "value"]
+    ctx.add("8-stores", dp, lp[0] if lp else dp.node, ok, "the in-memory LRU of a DiskCache is updated with the same value" if ok else "DiskCache.put does not refresh its in-memory LRU with the new value", key="DiskCache.put lru")
+
+
 def check(ctx: Ctx) -> None:
+    rule_stores(ctx)
     rule_lock(ctx)
     rule_invariant(ctx)
     rule_policy(ctx)
@@ -660,6 +682,9 @@ MUTANTS = [
     Mutant("getstate-always", F, "        if hasattr(self, \"shared\") and self.shared:\n            return self.__dict__\n", "        return self.__dict__\n", ("C14.6-pickle-guard",)),
     Mutant("disk-put-skips-evict", F, "            self.lru_cache.put(key, value)\n        self._evict_if_needed()\n", "            self.lru_cache.put(key, value)\n            return\n        self._evict_if_needed()\n", ("C14.7-disk-bound",)),
     Mutant("hybrid-get-no-count", F, "            self._access_counts[key] += 1\n", "", ("C14.3-policy",)),
+    Mutant("lru-put-early-return", F, "                self._cache_queue.remove(key)\n            elif len(self._cache_queue) >= self.max_size:\n", "                self._cache_queue.remove(key)\n                self._cache_queue.append(key)\n                return\n            if len(self._cache_queue) >= self.max_size:\n", ("C14.8-stores",), why="seeded C14/1"),
+    Mutant("disk-evict-at-most-one", F, "            for _ in range(len(files) - self.max_size):\n                oldest_file = min(files, key=lambda f: f.stat().st_ctime_ns)\n                oldest_file.unlink()\n                files.remove(oldest_file)\n",
+           "            if len(files) > self.max_size:\n                oldest_file = min(files, key=lambda f: f.stat().st_ctime_ns)\n                oldest_file.unlink()\n", ("C14.7-disk-bound",), why="seeded C14/3"),
     # behaviour-preserving twins
     Mutant("twin-lru-put-local-name", F, "                key_to_evict = self._cache_queue.pop(0)\n                self._cache_dict.pop(key_to_evict)\n",
            "                victim = self._cache_queue.pop(0)\n                self._cache_dict.pop(victim)\n", twin=True),
